@@ -358,6 +358,9 @@ func (r *rng) smProgram() *SX {
 		"((repeat (check (emit 90)) (act (emit 100) (draw x (i 0 9)) (if (lt x 5) (skip)) (if (ge x 9) (fatal 1)) (emit 200))))",
 		"((draw n (i 0 20)) (repeat (check (if (ge n 15) (error 1))) (act (emit 100) (draw x (bool)) (emit 200))))",
 		"((repeat (act (emit 100) (draw x (distinct (i 0 2) -1 -1 (id))) (if (lenge x 2) (fatal 1)) (emit 200)) (act (emit 101) (draw y (bool)) (if (istrue y) (skip)) (emit 201))))",
+		// a draw before the loop, a failure right after the last draw of an action (the group of the failing step stays open)
+		"((draw a (u 0 255)) (repeat (act (emit 100) (draw x (u 0 255)) (if (ge a 5) (if (ge x 7) (fatal 1))) (emit 200))))",
+		"((draw a (u 0 255)) (draw b (u 0 255)) (repeat (check (emit 90)) (act (emit 100) (draw x (u 0 255)) (if (ge a 5) (if (lt a 10) (if (ge x 7) (fatal 1)))) (emit 200)) (act (emit 101) (draw y (slice (u 0 9) 0 3)) (if (ge b 100) (if (lenge y 2) (fatal 2))) (emit 201))))",
 	}
 	p, _ := parseSX(srcs[r.intn(len(srcs))])
 	return p
